@@ -7,6 +7,8 @@
 (*   out    rt/esc: the rendering with transparent functions and the recording   *)
 (*          context, i.e. the spelling of the abstract tree - NOT of ParseModel  *)
 (*   lo hi  err: the classes that must / may be reported (rt, esc: none)         *)
+(*   lon    err: how many errors of each class must be reported at least (every  *)
+(*          empty statement / unregistered function is an error of its own)      *)
 (*   cli    the template can be given to `rare expression` (no test function)    *)
 (* The Go driver compiles `text` with a fresh key builder (optimised and not),   *)
 (* evaluates it and compares.                                                    *)
@@ -15,14 +17,15 @@ EXTENDS ExprSyntax_MC, Json
 RECURSIVE NoRegCall(_)
 NoRegCall(a) == ~(a.k = "call" /\ a.s \in Funcs) /\ \A j \in 1..Len(a.args) : NoRegCall(a.args[j])
 
+NoErr == [cl \in ErrClasses |-> 0]
 Vec(g, x) ==
   LET kd == KindOf(g) IN
-  CASE kd = "rt"  -> [g |-> g, kind |-> kd, text |-> PrintTpl(x), out |-> Spell(StripT(x)), lo |-> <<>>, hi |-> <<>>,
+  CASE kd = "rt"  -> [g |-> g, kind |-> kd, text |-> PrintTpl(x), out |-> Spell(StripT(x)), lo |-> <<>>, hi |-> <<>>, lon |-> NoErr,
                       cli |-> \A j \in 1..Len(x) : NoRegCall(x[j])]
     [] kd = "err" -> [g |-> g, kind |-> kd, text |-> PrintTpl(x), out |-> <<>>, lo |-> SetToSeq(ErrLower(x)), hi |-> SetToSeq(ErrUpper(x)),
-                      cli |-> \A j \in 1..Len(x) : NoRegCall(x[j])]
-    [] kd = "esc" -> [g |-> g, kind |-> kd, text |-> EscapeP(x[1], x[2]), out |-> x[1], lo |-> <<>>, hi |-> <<>>, cli |-> TRUE]
-    [] OTHER      -> [g |-> g, kind |-> kd, text |-> x, out |-> <<>>, lo |-> <<>>, hi |-> <<>>, cli |-> FALSE]
+                      lon |-> ErrLowCnts(x), cli |-> \A j \in 1..Len(x) : NoRegCall(x[j])]
+    [] kd = "esc" -> [g |-> g, kind |-> kd, text |-> EscapeP(x[1], x[2]), out |-> x[1], lo |-> <<>>, hi |-> <<>>, lon |-> NoErr, cli |-> TRUE]
+    [] OTHER      -> [g |-> g, kind |-> kd, text |-> x, out |-> <<>>, lo |-> <<>>, hi |-> <<>>, lon |-> NoErr, cli |-> FALSE]
 
 Dump == c.lv = 2 => PrintT("VFJ " \o ToJson(Vec(c.g, c.x)))
 =============================================================================
